@@ -22,7 +22,11 @@ static inline uint64_t verif_u64(void) {
 #define __CPROVER_decreases(...)
 #define __CPROVER_requires(...)
 #define __CPROVER_ensures(...)
+#define __CPROVER_same_object(a, b) 1   /* only ever a guard in front of an address-range comparison */
+/* addr points into the object that starts at base and is `bytes` long */
+#define VERIF_IN_OBJECT(addr, base, bytes) ((uintptr_t)(addr) - (uintptr_t)(base) < (uintptr_t)(bytes))
 #else
+#define VERIF_IN_OBJECT(addr, base, bytes) (__CPROVER_same_object((addr), (base)))
 uint64_t nondet_u64(void);
 /* every hand-written nondeterministic choice goes through this function so
  * that a counterexample trace lists them in program order (tools/prove.py
